@@ -105,6 +105,7 @@ AlgoOk(ev, N, x) ==
   /\ (ev.t = "x2" /\ ev.op = "add" /\ N >= 3) => Shr(ev.r, XSh(ev)) = AlgoAddE2(N, x[1], x[2])
   /\ (ev.t = "x2" /\ ev.op = "sub" /\ N >= 3) => Shr(ev.r, XSh(ev)) = AlgoSubE2(N, x[1], x[2])
   /\ (ev.t = "x2" /\ ev.op = "div" /\ N >= 3) => Shr(ev.r, XSh(ev)) = AlgoDivE2(N, x[1], x[2])
+  /\ (ev.t = "x1" /\ ev.op = "mul" /\ N >= 3) => Shr(ev.r, XSh(ev)) = AlgoMulE1(N, x[1], x[2])
 GoodX(ev, F, raw) ==
   LET N == F[1] ES == F[2] x == XArgs(ev, raw) IN
   /\ ev.o = "ok"
